@@ -15,7 +15,8 @@
 (*     instrumentation)                                                    *)
 (*   - the answer is selected from the task scores by the root rule: best  *)
 (*     score for the side to move, returned move attains it                *)
-(* Reported (diagnostics, "diag", not an alarm by themselves -- DESIGN 6):  *)
+(* Checked as well since the cache key carries depth and side (fix D3):    *)
+(* "determinism relies on every key having one possible value" --          *)
 (*   - a hit that the full key (position, remaining depth, side, window)   *)
 (*     cannot explain: an entry written at one depth / side read at another*)
 (*   - two different values stored for one full key                        *)
@@ -25,48 +26,47 @@
 EXTENDS Integers, Sequences, FiniteSets, TLC, Json, IOUtils
 Recs == ndJsonDeserialize(IOEnv.TRACE)
 NRec == Len(Recs)
-VARIABLES l, cache, owner, scores, pending, rootmax
-vars == <<l, cache, owner, scores, pending, rootmax>>
+VARIABLES l, cache, scores, pending, rootmax      \* cache: full key -> <<value, fingerprint of the storing position>>
+vars == <<l, cache, scores, pending, rootmax>>
 Ev == Recs[l]
 FullKey(e) == <<e.hash, e.depth, e.max, e.alpha, e.beta>>
 Bad(why, x) == PrintT(ToJson([bad |-> l, why |-> why, x |-> x]))
 Diag(why, x) == PrintT(ToJson([diag |-> l, why |-> why, x |-> x]))
 
-Init == l = 1 /\ cache = << >> /\ owner = << >> /\ scores = << >> /\ pending = << >> /\ rootmax = TRUE
+Init == l = 1 /\ cache = << >> /\ scores = << >> /\ pending = << >> /\ rootmax = TRUE
 Adv == l' = l + 1
 
 TBegin == /\ Ev.ev = "Begin"
-          /\ cache' = << >> /\ owner' = << >> /\ scores' = << >> /\ pending' = << >> /\ rootmax' = Ev.rootmax /\ Adv
-TTaskBegin == /\ Ev.ev = "TaskBegin" /\ UNCHANGED <<cache, owner, scores, pending, rootmax>> /\ Adv
+          /\ cache' = << >> /\ scores' = << >> /\ pending' = << >> /\ rootmax' = Ev.rootmax /\ Adv
+TTaskBegin == /\ Ev.ev = "TaskBegin" /\ UNCHANGED <<cache, scores, pending, rootmax>> /\ Adv
 TTaskEnd == /\ Ev.ev = "TaskEnd"
             /\ scores' = [t \in DOMAIN scores \cup {Ev.task} |-> IF t = Ev.task THEN Ev.value ELSE scores[t]]
-            /\ UNCHANGED <<cache, owner, pending, rootmax>> /\ Adv
+            /\ UNCHANGED <<cache, pending, rootmax>> /\ Adv
 TProbe == /\ Ev.ev = "Probe"
           /\ pending' = <<Ev.task, FullKey(Ev)>>
-          /\ UNCHANGED <<cache, owner, scores, rootmax>> /\ Adv
+          /\ UNCHANGED <<cache, scores, rootmax>> /\ Adv
 TProbeResult ==
   /\ Ev.ev = "ProbeResult"
   /\ \E k \in {FullKey(Ev)} :
        /\ (IF pending = <<Ev.task, k>> THEN TRUE
            ELSE Bad("a cache read did not directly follow its own yield point", [task |-> Ev.task]))
-       /\ (IF Ev.hit /\ (k \notin DOMAIN cache \/ cache[k] # Ev.value)
-           THEN Diag("hit not explained by the full key: an entry stored for another remaining depth or side was read",
+       /\ (IF Ev.hit /\ (k \notin DOMAIN cache \/ cache[k][1] # Ev.value)
+           THEN Bad("hit not explained by the full key: an entry stored for another remaining depth or side (or never stored) was read",
                      [depth |-> Ev.depth, max |-> Ev.max, value |-> Ev.value])
            ELSE TRUE)
        \* "determinism relies on every key having one possible value": the entry read must have been stored
        \* for THIS position (fingerprint of placement, rights, ep target computed independently of the key)
-       /\ (IF Ev.hit /\ k \in DOMAIN owner /\ owner[k] # Ev.fp
+       /\ (IF Ev.hit /\ k \in DOMAIN cache /\ cache[k][2] # Ev.fp
            THEN Bad("a cache hit returned the entry stored for a different position", [depth |-> Ev.depth, max |-> Ev.max, value |-> Ev.value])
            ELSE TRUE)
-  /\ pending' = << >> /\ UNCHANGED <<cache, owner, scores, rootmax>> /\ Adv
+  /\ pending' = << >> /\ UNCHANGED <<cache, scores, rootmax>> /\ Adv
 TStore ==
   /\ Ev.ev = "Store"
   /\ \E k \in {FullKey(Ev)} :
-       /\ (IF k \in DOMAIN cache /\ cache[k] # Ev.value
-           THEN Diag("two different values stored for one (position, depth, side, window)", <<cache[k], Ev.value>>)
+       /\ (IF k \in DOMAIN cache /\ cache[k][1] # Ev.value
+           THEN Bad("two different values stored for one (position, depth, side, window)", <<cache[k][1], Ev.value>>)
            ELSE TRUE)
-       /\ cache' = [x \in DOMAIN cache \cup {k} |-> IF x = k THEN Ev.value ELSE cache[x]]
-       /\ owner' = [x \in DOMAIN owner \cup {k} |-> IF x = k THEN Ev.fp ELSE owner[x]]
+       /\ cache' = [x \in DOMAIN cache \cup {k} |-> IF x = k THEN <<Ev.value, Ev.fp>> ELSE cache[x]]
   /\ UNCHANGED <<scores, pending, rootmax>> /\ Adv
 TEnd ==
   /\ Ev.ev = "End"
@@ -78,7 +78,7 @@ TEnd ==
               ELSE IF Ev.score # best THEN Bad("reported score is not the best task score for the side to move", <<Ev.score, best>>)
               ELSE IF Ev.task \notin DOMAIN scores \/ scores[Ev.task] # best THEN Bad("returned move does not attain the reported score", Ev.task)
               ELSE TRUE)
-  /\ UNCHANGED <<cache, owner, scores, pending, rootmax>> /\ Adv
+  /\ UNCHANGED <<cache, scores, pending, rootmax>> /\ Adv
 Next == l <= NRec /\ (TBegin \/ TTaskBegin \/ TTaskEnd \/ TProbe \/ TProbeResult \/ TStore \/ TEnd)
 Spec == Init /\ [][Next]_vars
 AllConsumed == IF TLCGet("stats").diameter = NRec + 1 THEN TRUE
